@@ -121,17 +121,19 @@ def build_scenarios(prop, tier, rnd):
             add(init, [[a], [b]], dfs, n=[10000, 1, 2][(i + j) % 3], kt=["string", "bytes", "u32"][i % 3])
     # one operation against a thread of TWO operations on the same key (commit, then removal/overwrite, before the
     # other commit is applied): all schedules with at most two pre-emptions
-    if prop in ("C04", "C15"):
+    if prop in ("C04", "C05", "C15"):
         k1 = lambda c: {"op": "put", "k": 1, "c": c}
         seq2 = []
         for c in ("A", "B"):
             seq2 += [[k1(c), {"op": "del", "k": 1}], [k1(c), W[6]], [{"op": "del", "k": 1}, k1(c)]]
             seq2 += [[k1(c), k1(c2)] for c2 in ("A", "B")]
-        ones = [k1("A"), k1("B"), {"op": "del", "k": 1}]
+        # the single operation also on ANOTHER key with the same content (shared blob, different slots)
+        ones = [k1("A"), k1("B"), {"op": "del", "k": 1}, {"op": "put", "k": 2, "c": "A"}, {"op": "put", "k": 2, "c": "B"}]
         combos = [(o, t2) for o in ones for t2 in seq2]
         if q:
             rnd.shuffle(combos)
-            combos = combos[:14] + [(k1("A"), [k1("A"), {"op": "del", "k": 1}])]
+            combos = combos[:14] + [(k1("A"), [k1("A"), {"op": "del", "k": 1}]), ({"op": "put", "k": 2, "c": "A"}, [k1("A"), {"op": "del", "k": 1}]),
+                                    ({"op": "put", "k": 2, "c": "B"}, [k1("B"), k1("A")])]
         for i, (o, t2) in enumerate(combos):
             add(INITS[i % 2], [[o], t2], dict(dfs, runs=80 if q else 800))
     # three writers on one key / one content: all schedules with at most two pre-emptions (capped)
@@ -190,7 +192,8 @@ PROP_INV = {"C04": ["Inv_C04", "Inv_C07"], "C05": ["Inv_C05"], "C15": ["Inv_C15"
 # C08 (clean-up never harms live data / a put that is committing) and C13 (an abandoned transaction does not disturb a
 # concurrent one on the same key) are judged on their own program classes with the C04/C07 conjuncts of TraceConc
 # OPFAIL: a put / remove / checkpoint / clean-up call returned an error although nothing was injected
-PROP_TAGS = {"C04": ["C04:", "C07:", "OPFAIL:"], "C05": ["C05:", "OPFAIL:"], "C15": ["C15:"], "C08": ["C04:", "C07:", "OPFAIL:"],
+# C06: (a blob whose bytes do not match its name, an in-place write under cas/) is what makes reads return mixed bytes
+PROP_TAGS = {"C04": ["C04:", "C07:", "C06:", "OPFAIL:"], "C05": ["C05:", "C06:", "C04:", "OPFAIL:"], "C15": ["C15:"], "C08": ["C04:", "C07:", "C06:", "OPFAIL:"],
              "C13": ["C04:", "C07:", "C05:", "C06:", "OPFAIL:"]}
 
 
